@@ -63,6 +63,7 @@ TAddH == /\ Ev.ev = "add_h"
 TEdit ==
   \/ Ev.ev = "add_atom" /\ AddAtom(Ev.a, Ev.q) /\ Observed
   \/ Ev.ev = "append_atom" /\ AppendAtom(Ev.a) /\ Observed
+  \/ Ev.ev = "new_atom" /\ NewAtom(Ev.a) /\ Observed
   \/ Ev.ev = "connect" /\ Connect(Ev.i + 1, Ev.j + 1) /\ Observed
   \/ Ev.ev = "append_bond" /\ AppendBond(Ev.x, Ev.y) /\ Observed
   \/ Ev.ev = "del_bond" /\ DelBond({Ev.b[1], Ev.b[2]}, Ev.which) /\ Observed
